@@ -120,6 +120,18 @@ def main():
             ok = False
         # 3. with patch
         rc, out, _ = sh(f"git apply {os.path.join(seed, 'patch.diff')}", wt)
+        if rc != 0:
+            # the patch was written against an older /repo HEAD: try a 3-way merge, then an author-provided rebase
+            rc, out2, _ = sh(f"git apply -3 {os.path.join(seed, 'patch.diff')}", wt)
+            out += "\n[git apply -3] " + out2
+            if rc != 0:
+                sh("git checkout -- . ", wt)
+                for alt in sorted(os.listdir(seed)):
+                    if alt.startswith("patch_rebased") and alt.endswith(".diff"):
+                        rc, out3, _ = sh(f"git apply {os.path.join(seed, alt)}", wt)
+                        out += f"\n[{alt}] " + out3
+                        if rc == 0:
+                            break
         rec["ran"].append({"what": "git apply patch.diff", "rc": rc, "tail": out[-300:]})
         if rc != 0:
             ok = False
